@@ -867,4 +867,8 @@ PROPS = {
             "assumptions": _ASSUME,
             "covers": "spmc broadcast futures (RecvFuture, RecvBatchFuture, SendFuture, SendBatchFuture, SendBatchMutFuture; Stream polls are tied but carry no wake obligation): wake invariant after every history, cancellation harmless (K2); two recorded exceptions",
             "engine_info": _INFO},
+    "C09": {"engines": [_ENG], "witness": {}, "assumptions": _ASSUME + [
+                "spmc C09: T: Clone — a receive hands out a clone (dropped by the caller: the harness drops it at once), the original stays in its slot until the slot is overwritten one lap later or the last handle goes; the harness's per-id drop counters are diffed against the model's drop log mid-case (snap) and after teardown"],
+            "covers": "spmc broadcast: conservation of payload instances and clones at every point of every history, exactly-once drop after any teardown order, overwrite drops the previous lap's original (K2)",
+            "engine_info": _INFO},
 }
